@@ -84,7 +84,7 @@ Fixpoint shape_fields (fds : list fdesc) (evs : list event) : option fields :=
     end
   end.
 
-Definition gf_fuel_s : nat := S (grammar_size g) * S (length g).
+Definition gf_fuel_s : nat := S (grammar_size g).
 
 Definition shape (r : rule) (consumed : list N) (span : nat * nat) (evs : list event) : option value :=
   let fl := flags_of (r_directives r) in
